@@ -278,7 +278,8 @@ def run(ck: Check) -> None:
             "filtering (beta1 > 0)": sum(1 for j in jobs if j[0]["groups"][0]["cfg"]["betas"][0] > 0),
             "parameters split into several blocks": sum(1 for r in results if "error" not in r and r.get("max_blocks", 0) >= 2),
         },
-        "not_exercised": ["inductor backend (outside the property's wording; no GPU)"],
+        "not_exercised": ["inductor backend (outside the property's wording; no GPU)",
+                          "bfloat16 / float16 parameters: under aot_eager PyTorch 2.5.1 decomposes torch._foreach_mul_(list, python_scalar) with a different rounding than the eager kernel, i.e. the backend does not preserve eager numerics there (the property's premise); float32 parameters differ from float64 only in storage rounding and are covered through C01's dtype sweep in eager mode"],
     })
     ck.assumptions += ["backends eager and aot_eager on CPU; float64 parameters"]
 
